@@ -243,6 +243,15 @@ func (c *compiler) compileType(y *Type, parent Leafable, isUnion bool) error {
 		if _, isList := parent.(*LeafList); isList && !y.format.IsList() {
 			y.format = y.format.List()
 		}
+		// the type object is shared by every copy of a leaf that came from a
+		// grouping. Each copy still has to inherit default and units.
+		if _, builtinType := val.TypeAsFormat(y.ident); !builtinType && !isUnion {
+			tdef, err := c.findTypedef(y, parent, y.ident)
+			if err != nil {
+				return err
+			}
+			inheritFromTypedef(parent, tdef)
+		}
 		return nil
 	}
 	var builtinType bool
@@ -258,14 +267,7 @@ func (c *compiler) compileType(y *Type, parent Leafable, isUnion bool) error {
 		tdef.dtype.mixin(y)
 
 		if !isUnion {
-			if !parent.HasDefault() {
-				if tdef.HasDefault() {
-					parent.setDefaultValue(tdef.DefaultValue())
-				}
-			}
-			if parent.Units() == "" {
-				parent.setUnits(tdef.Units())
-			}
+			inheritFromTypedef(parent, tdef)
 		}
 	}
 
@@ -347,6 +349,18 @@ func (c *compiler) compileType(y *Type, parent Leafable, isUnion bool) error {
 	}
 
 	return nil
+}
+
+// default and units come from the typedef when the leaf (or typedef) states none
+func inheritFromTypedef(parent Leafable, tdef *Typedef) {
+	if !parent.HasDefault() {
+		if tdef.HasDefault() {
+			parent.setDefaultValue(tdef.DefaultValue())
+		}
+	}
+	if parent.Units() == "" {
+		parent.setUnits(tdef.Units())
+	}
 }
 
 func (c *compiler) findTypedef(y *Type, parent Definition, qualifiedIdent string) (*Typedef, error) {
